@@ -799,3 +799,229 @@ def r12_wrap_is_a_loop(ck, P):
                     ck.violation(R, f.name, 'single-step wrap of the source coordinate', '%s subtracts the tile width from the source coordinate at most once per pixel (%s): with a step larger than the tile the coordinate is still outside afterwards and the next load reads past the source' % (f.name, x.loc()), x.loc())
     if n == 0:
         ck.incomplete(R, 'no wrapping subtraction found in the scaled nearest scanline kernels')
+
+
+# ------------------------------------------------------------------------------ C08-R13: SIMD weight vector tracks the scalar position
+def _lin(f, o, d=0):
+    """a scalar as a linear form {root: coeff, 1: const} over parameters / opaque values (arithmetic modulo the lane width)"""
+    if d > 30:
+        return None
+    if o[0] == 'c':
+        return {1: int(o[1])}
+    if o[0] == 'a':
+        return {('a', o[1]): 1}
+    if o[0] != 'v':
+        return None
+    x = f.by_id[o[1]]
+    if x.op in ('trunc', 'sext', 'zext'):
+        return _lin(f, x.a[0], d + 1)
+    if x.op in ('add', 'sub'):
+        p, q = _lin(f, x.a[0], d + 1), _lin(f, x.a[1], d + 1)
+        if p is None or q is None:
+            return None
+        out = dict(p)
+        for k, v in q.items():
+            out[k] = out.get(k, 0) + (v if x.op == 'add' else -v)
+        return {k: v for k, v in out.items() if v}
+    if x.op in ('mul', 'shl'):
+        p, q = _lin(f, x.a[0], d + 1), _lin(f, x.a[1], d + 1)
+        if p is None or q is None:
+            return None
+        if x.op == 'shl':
+            if set(q) - {1}:
+                return None
+            c = 1 << q.get(1, 0); return {k: v * c for k, v in p.items()}
+        for a_, b_ in ((p, q), (q, p)):
+            if not (set(b_) - {1}):
+                c = b_.get(1, 0)
+                return {k: v * c for k, v in a_.items() if v * c}
+        return None
+    return {('v', x.i): 1}
+
+
+def r13_weight_vector_tracks_position(ck, P, rid='C08-R13'):
+    """SSE2 bilinear scanlines keep the source position twice: the scalar vx (which pixel pair is fetched) and the 16-bit lanes of xmm_x
+    (the horizontal weights).  Relational induction over the paired phis: they start equal and advance by the same number of unit_x on
+    every edge, and each interpolation takes its weights and its pixels at the same advance."""
+    R = ck.rule(rid, 'in every SSE2 bilinear scanline the packed weight vector and the scalar source position start at the same coordinate, advance by the same multiple of unit_x along every control-flow edge between their paired phis, and every interpolation reads its weights and its two pixel pairs at the same advance', floor=5)
+    u = P.units.get('pixman-sse2.c')
+    if u is None:
+        ck.incomplete(R, 'pixman-sse2.c is not part of the build'); return
+    for f in u.functions.values():
+        sets = {}
+        for x in f.insts():
+            if x.op == 'call' and x.callee == '_mm_set_epi16' and len(x.a) == 8:
+                sets[x.i] = [_lin(f, a) for a in reversed(x.a)]        # lane 0 first
+        # advance vectors: lanes +k*unit, -k*unit, ...
+        adv = {}
+        for i, L in sets.items():
+            if None in L or not L[1] or len(L[1]) != 1 or 1 in L[1]:
+                continue
+            (root, k), = L[1].items()
+            # _mm_set_epi16 (u, -u, ...): odd lanes carry the position, even lanes its complement
+            if all(L[j] == ({root: k} if j % 2 == 1 else {root: -k}) for j in range(8)):
+                adv[i] = (root, k)
+        if not adv:
+            continue
+        # weight family: values reached from an _mm_add_epi16 (X, advance)
+        def xbase(o, d=0):
+            """(base value id, advance accumulated, unit root) of a weight-vector value"""
+            k = 0; unit = None
+            while d < 200:
+                d += 1
+                x = f.v(o)
+                if x is None:
+                    return None
+                if x.op == 'call' and x.callee == '_mm_add_epi16' and len(x.a) == 2:
+                    a0, a1 = x.a
+                    if a1[0] == 'v' and a1[1] in adv:
+                        pass
+                    elif a0[0] == 'v' and a0[1] in adv:
+                        a0, a1 = a1, a0
+                    else:
+                        return None
+                    r_, k_ = adv[a1[1]]
+                    if unit not in (None, r_):
+                        return None
+                    unit = r_; k += k_; o = a0; continue
+                if x.op == 'bitcast':
+                    o = x.a[0]; continue
+                return (x.i, k, unit)
+            return None
+
+        def vbase(o, unit, d=0):
+            k = 0
+            while d < 200:
+                d += 1
+                x = f.v(o)
+                if x is None:
+                    return (tuple(o), k)
+                if x.op == 'add':
+                    for a0, a1 in ((x.a[0], x.a[1]), (x.a[1], x.a[0])):
+                        l = _lin(f, a1)
+                        if l is not None and set(l) == {unit}:
+                            k += l[unit]; o = a0; break
+                    else:
+                        return (x.i, k)
+                    continue
+                if x.op in ('sext', 'trunc', 'zext'):
+                    o = x.a[0]; continue
+                return (x.i, k)
+            return None
+
+        xphis = []; fam = set(); grew = True
+        vphis = [x for x in f.insts() if x.op == 'phi' and x.ty == '<2 x i64>']
+        while grew:
+            grew = False
+            for x in vphis:
+                if x.i in fam:
+                    continue
+                bs = [xbase(a) for a in x.a]
+                if any(b is not None and (b[1] != 0 or b[0] in fam) for b in bs):
+                    fam.add(x.i); grew = True
+        xphis = [x for x in vphis if x.i in fam]
+        if not xphis:
+            continue
+        ck.saw(f)
+        def _bloc(X):
+            return next((y.loc() for y in X.bb.insts if y.d.get('l')), X.loc())
+        unit = next(iter(adv.values()))[0]
+        # the initial vector: lane 0 is the scalar position, lane 1 its complement
+        init = None
+        pair = {}          # id of vector phi / init -> id (or operand) of its scalar partner
+        bad = False
+        for X in xphis:
+            cands = []
+            for V in X.bb.insts:
+                if V.op != 'phi' or not V.ty.startswith('i') or V.ty == 'i1':
+                    continue
+                ok = True; any_adv = False
+                for a, b in zip(V.a, X.a):
+                    vb = vbase(a, unit); xb = xbase(b)
+                    if vb is None or xb is None or vb[1] != xb[1]:
+                        ok = False; break
+                    any_adv = any_adv or vb[1] != 0
+                if ok:
+                    cands.append(V)
+            exact = [V for V in cands if V.d.get('bb') == X.d.get('bb')]
+            if len(exact) >= 1:
+                # prefer the candidate whose bases pair up consistently (decided below)
+                pair[X.i] = [V.i for V in exact]
+            else:
+                # find the closest scalar phi to explain what differs
+                best = None
+                for V in X.bb.insts:
+                    if V.op == 'phi' and V.ty == 'i64':
+                        diffs = []
+                        for a, b, p_ in zip(V.a, X.a, X.d.get('bb', [])):
+                            vb = vbase(a, unit); xb = xbase(b)
+                            if vb is not None and xb is not None and vb[1] != xb[1]:
+                                diffs.append((p_, vb[1], xb[1]))
+                        if diffs and (best is None or len(diffs) < len(best)):
+                            best = diffs
+                if best:
+                    p_, kv, kx = best[0]
+                    ck.violation(R, f.name, 'weight vector at block %d' % X.bb.id, 'along the edge from block %d the scalar source position advances by %d x unit_x but the packed weight vector advances by %d x unit_x: from there on every interpolated pixel is fetched at one coordinate and weighted for another' % (p_, kv, kx), _bloc(X))
+                else:
+                    ck.incomplete(R, '%s: no scalar position phi pairs with the weight vector phi at %s' % (f.name, _bloc(X)))
+                bad = True
+        if bad:
+            continue
+        # bases must pair up: the base of X's incoming value is a vector phi whose partner is the base of V's incoming value, or the initial vector
+        okf = True
+        for X in xphis:
+            good = []
+            for vi in pair[X.i]:
+                V = f.by_id[vi]
+                fine = True
+                for a, b in zip(V.a, X.a):
+                    vb = vbase(a, unit); xb = xbase(b)
+                    if xb[0] in sets:
+                        L = sets[xb[0]]
+                        vl = _lin(f, ['v', vb[0]] if not isinstance(vb[0], tuple) else list(vb[0]))
+                        comp = None
+                        if vl is not None:
+                            comp = {k: -v for k, v in vl.items()}; comp[1] = comp.get(1, 0) - 1
+                            comp = {k: v for k, v in comp.items() if v}
+                        if vl is None or any(L[j] != (vl if j % 2 == 1 else comp) for j in range(8)):
+                            fine = False
+                    elif xb[0] in pair:
+                        if vb[0] not in pair[xb[0]]:
+                            fine = False
+                    else:
+                        fine = False
+                if fine:
+                    good.append(vi)
+            if not good:
+                okf = False
+                ck.violation(R, f.name, 'weight vector at block %d' % X.bb.id, 'the packed weight vector merged at block %d does not start from the coordinate of the scalar source position it is paired with (lanes must be -(vx + 1), vx, ...): weights and fetched pixels belong to different coordinates' % X.bb.id, _bloc(X))
+            pair[X.i] = good
+        if not okf:
+            continue
+        # uses: per block, the weights (srli of the vector) and the pixel-pair loads (position >> 16) are taken at the same advances
+        nuse = 0
+        for b in f.blocks:
+            wu = []; pu = set()
+            for x in b.insts:
+                if x.op == 'call' and x.callee == '_mm_srli_epi16':
+                    xb = xbase(x.a[0])
+                    if xb is not None and (xb[0] in pair or xb[0] in sets):
+                        wu.append((xb, x))
+                if x.op == 'ashr' and x.a[1][0] == 'c' and int(x.a[1][1]) == 16:
+                    vb = vbase(x.a[0], unit)
+                    if vb is not None:
+                        pu.add(vb)
+            for xb, x in wu:
+                nuse += 1
+                partners = pair.get(xb[0], [])
+                if xb[0] in sets:
+                    want = None
+                    match = any(k == xb[1] for (_, k) in pu)
+                else:
+                    match = any(bv in partners and k == xb[1] for (bv, k) in pu)
+                if not match:
+                    ks = sorted(k for (bv, k) in pu if xb[0] in sets or bv in partners)
+                    ck.violation(R, f.name, 'interpolation weights at %s' % x.loc(), 'the horizontal weights are taken from the weight vector after %d advance(s) of unit_x but the pixel pairs of that block are fetched at advance(s) %s of the scalar position' % (xb[1], ks), x.loc())
+                    okf = False
+        if okf:
+            ck.ok(R, '%s: %d weight-vector phis paired with the source position, %d interpolations aligned' % (f.name, len(xphis), nuse))
